@@ -327,11 +327,11 @@ struct World {
         return true;
       }
       case VK_FLOCK: {
-        Ofd *o = O(p, r.a[0]); if (!o || !o->ino) return true;
+        Ofd *o = O(p, r.a[0]); if (!o || !Kernel::lock_key(o)) return true;
         int op = r.a[1];
         if (op & LOCK_NB) return true;
         if (op & LOCK_UN) return true;
-        auto it = k.lock_holder.find(o->ino);
+        auto it = k.lock_holder.find(Kernel::lock_key(o));
         if (it == k.lock_holder.end()) return true;
         return k.ofds[it->second].get() == o;
       }
